@@ -6,6 +6,7 @@ import BqVerif.Proofs.AcceptGrid
 import BqVerif.Proofs.Structural
 import BqVerif.Proofs.Walsh
 import BqVerif.Proofs.Demultiplex
+import BqVerif.Proofs.BlockZXZ
 /-! # C10 — every circuit-rewriting pass preserves its target within stated tolerance
 
 Four classes (DESIGN.md §4 C10, design_notes/C10.md):
@@ -222,13 +223,13 @@ open BqVerif.AcceptGrid
 def g : Grid := [[⟨0, [0]⟩], [⟨1, [1, 0]⟩], [⟨2, [1]⟩], [⟨3, [1]⟩]]
 def ch : List Elem := [(3, ⟨3, [1]⟩, 1), (2, ⟨2, [1]⟩, 1), (1, ⟨1, [1, 0]⟩, 1)]
 
-theorem wf : WF g := by
+private theorem wf : WF g := by
   refine ⟨by decide, by decide, ?_⟩
   intro cy hcy x hx x' hx' q _ _
   simp only [g, List.mem_cons, List.not_mem_nil, or_false] at hcy
   rcases hcy with rfl | rfl | rfl | rfl <;> simp_all
 
-theorem chOk : ChunkOk false g ch := by
+private theorem chOk : ChunkOk false g ch := by
   refine ⟨?_, by decide, by decide⟩
   intro x hx
   simp only [ch, List.mem_cons, List.not_mem_nil, or_false] at hx
@@ -237,7 +238,7 @@ theorem chOk : ChunkOk false g ch := by
   · exact ⟨[⟨2, [1]⟩], rfl, by simp, by simp⟩
   · exact ⟨[⟨1, [1, 0]⟩], rfl, by simp, by simp⟩
 
-theorem dsOk : DsOk false g ch [[]] := by
+private theorem dsOk : DsOk false g ch [[]] := by
   intro D hD
   rw [List.mem_singleton.mp hD]
   constructor
@@ -356,5 +357,32 @@ theorem C10_qsd_demultiplex {M : Type} [Monoid M] (u1 u2 u2d v vd d dd : M)
 /-- Non-vacuity: in ℤ, u₁ = u₂ = v = 1 and the non-trivial square root d = d† = −1 of u₁u₂†. -/
 example : (1 : ℤ) = 1 * -1 * (-1 * 1 * 1) ∧ (1 : ℤ) = 1 * -1 * (-1 * 1 * 1) :=
   C10_qsd_demultiplex 1 1 1 1 1 (-1) (-1) (by decide) (by decide) (by decide) (by decide)
+
+/-! ### Block-ZXZ: the initial decomposition (eqs 5–9 of Krol & Al-Ars) -/
+
+open BqVerif.BlockZXZ in
+/-- `BlockZXZPass.initial_decompose`: with the polar factors `X = S_X U_X`, `Y = S_Y U_Y` of the upper
+blocks of a unitary `[[X, Y], [U21, U22]]` (`S_X S_Y = S_Y S_X`, `S_X² + S_Y² = 1`,
+`U21 X† + U22 Y† = 0`), the code's `A₁ = (S_X + i S_Y) U_X`, `C = −i U_X† U_Y`, `A₂ = U21 + U22 C†` and
+`P = A₁† X = ½(1 + B)` satisfy `A₁A₁† = 1` and
+`[[X, Y], [U21, U22]] = diag(A₁, A₂) · [[P, 1−P], [1−P, P]] · diag(1, C)` block by block — the matrix
+`[[P, 1−P], [1−P, P]] = ½[[1+B, 1−B], [1−B, 1+B]]` is H·(controlled B)·H on the top qubit.
+Any ring with a central `i`, `i² = −1`. -/
+theorem C10_bzxz_initial_decompose {R : Type} [Ring R]
+    {i X Y U21 U22 SX SY UX UXd UY UYd : R} (h : Setup i X Y U21 U22 SX SY UX UXd UY UYd) :
+    let A1 := (SX + i * SY) * UX
+    let A1d := UXd * (SX - i * SY)
+    let A2 := U21 + U22 * (i * (UYd * UX))
+    let C := -(i * (UXd * UY))
+    let P := A1d * X
+    A1 * A1d = 1 ∧ A1 * P = X ∧ A1 * (1 - P) * C = Y ∧ A2 * (1 - P) = U21 ∧ A2 * P * C = U22 :=
+  ⟨a1_unitary h, block_x h, block_y h, block_21 h, block_22 h⟩
+
+open BqVerif.BlockZXZ in
+/-- Non-vacuity: the complex numbers, U = identity (X = 1, Y = 0, U21 = 0, U22 = 1; S_X = 1, S_Y = 0). -/
+example : Setup (Complex.I : ℂ) 1 0 0 1 1 0 1 1 1 1 :=
+  { ii := Complex.I_mul_I, central := fun a => mul_comm a _, ux := by simp, uxd := by simp,
+    uyd := by simp, comm := by simp, sq := by simp, hX := by simp, hY := by simp,
+    orth := by simp }
 
 end BqVerif.C10
